@@ -72,8 +72,8 @@ def explicit(tree: typing.Any, limit: int = EXPLICIT_LIMIT) -> typing.Set[int]:
             if k + 1 > limit:
                 raise TooBig()
             return {a * j for j in range(k + 1)}
-        if k > 4 * limit:
-            raise TooBig()
+        if k * (len(base) - 1) + 1 > limit:
+            raise TooBig()  # in the integers the k-fold sumset of n >= 2 values has at least k(n-1)+1 elements
         acc = {0}
         out = {0}
         for _ in range(k):
